@@ -22,7 +22,7 @@ from tools.gen import fiberframe as gen_fiberframe
 from tools.gen.csrc import ExtractError
 from harness.C02 import gen, oracle
 
-from harness.C02.lean_parts import THEOREMS, lean_stage, tv_stage, sem_stage
+from harness.C02.lean_parts import THEOREMS, lean_stage, tv_stage, sem_stage, compile_stage
 
 KNOWN_WHAT = {
     "far-upvalue-index-truncated": "closure captures a local living in a register > 255: LOAD_UPVALUE/SET_UPVALUE index is truncated to 8 bits",
@@ -126,6 +126,10 @@ def run(ctx):
     lean_cov.update(sem_cov)
     ctx.say("Lang/Sem: %s" % sem_cov)
     sem_bad = {dd["case"] for dd in sem_dis}
+    # ---------------------------------------------------------------- (D4) compiler model vs real compile.c/specials.c, word for word
+    comp_cov = compile_stage(ctx, broken, quick, [it for it in todo if it["ctx"] != "top"])
+    lean_cov.update(comp_cov)
+    ctx.say("compile correspondence: core %s general %s diffs %s" % (comp_cov.get("comp_core"), comp_cov.get("comp_general"), comp_cov.get("comp_diffs")))
     byprog = {}
     for it in todo:
         byprog.setdefault(it["prog"], []).append(it)
